@@ -12,6 +12,7 @@ Graph.tla in C11, Binned.tla in C10.)
   Regex.tla       motif patterns (letters, '.', classes, gaps) rolled over ragged sequences (sequence/string_matcher.py)
   Join.tla        left join of two key-grouped streams (streams/left_join.py)
   Consensus.tla   single-base variants applied to reference sequences (variants/consensus.py)
+  Csv.tla         delimited files with a header line read into a user-defined table type by column name (io/delimited_buffers.py)
   Motif.tla       motif files (.jaspar, .csv) read with read_motif and scored (io/jaspar.py, io/motifs.py)
   Windows.tla!Index   k-mer index and lookup (sequence/indexing/kmer_indexing.py), on the states of MC_C13
 """
@@ -305,9 +306,77 @@ def check_motif(v):
     return {"n": n, "nt": [json.dumps(["motif", v["order"], v["e"]])], "bad": bad}
 
 
+_REC = []
+
+
+def check_csv(v):
+    """One state of spec/Csv.tla: the file read into a user-defined table type by header name (lazily, eagerly, in chunks) and written again."""
+    import bionumpy as bnp
+    from bionumpy.bnpdataclass import bnpdataclass
+    from bionumpy.io.delimited_buffers import get_bufferclass_for_datatype
+    if not _REC:
+        @bnpdataclass
+        class Rec:
+            name: str
+            count: int
+            score: float
+        _REC.append(Rec)
+    Rec = _REC[0]
+    rows = v["rows"]
+    if not rows:
+        return {"n": 0, "nt": [], "bad": []}
+    sep = chr(v["sep"])
+    text, canon = bytes(v["text"]), bytes(v["canon"])
+    d = os.path.join(v["_dir"], "csv_%d" % os.getpid())
+    os.makedirs(d, exist_ok=True)
+    path = os.path.join(d, "t.csv")
+    with open(path, "wb") as f:
+        f.write(text)
+    buf = get_bufferclass_for_datatype(Rec, delimiter=sep, has_header=True)
+    want = [["".join(chr(c) for c in r["name"]), r["count"], float("".join(chr(c) for c in r["score"]))] for r in rows]
+    hdr = ["".join(chr(c) for c in h) for h in v["header"]]
+    tags0 = {"spec": "Csv", "header": ",".join(hdr), "extra_column": "extra" in hdr, "permuted": [h for h in hdr if h != "extra"] != ["name", "count", "score"]}
+    bad, n = [], 0
+
+    def proj(t):
+        return [[a, int(b), float(c)] for a, b, c in zip(t.name.tolist(), t.count.tolist(), t.score.tolist())]
+    for mode, f in (("lazy", lambda: proj(bnp.open(path, buffer_type=buf).read())),
+                    ("eager", lambda: proj(bnp.open(path, buffer_type=buf, lazy=False).read())),
+                    ("chunks", lambda: [r for c in bnp.open(path, buffer_type=buf).read_chunks(min_chunk_size=max(len(l) for l in text.split(b"\n")) + 1) for r in proj(c)]),
+                    ("reversed", lambda: proj(bnp.open(path, buffer_type=buf).read()[::-1])[::-1])):
+        o = outcome(f)
+        n += 1
+        if o != ("ok", want):
+            bad.append({"what": "a delimited file with a header read into a table type does not give the columns named by the header", "tags": dict(tags0, op="read", mode=mode),
+                        "vector": {k: v[k] for k in v if not k.startswith("_")}, "case": {"text": text.decode()}, "expected": want, "observed": o})
+    out = os.path.join(d, "w.csv")
+
+    def write(lazy):
+        t = bnp.open(path, buffer_type=buf, lazy=lazy).read()
+        with bnp.open(out, "w", buffer_type=buf) as w:
+            w.write(t)
+        return open(out, "rb").read()
+    comment = b"#x\n" if text.startswith(b"#") else b""
+    for mode, lazy, wanted in (("lazy", None, text[len(comment):]), ("eager", False, canon)):
+        o = outcome(write, lazy)
+        n += 1
+        if o != ("ok", wanted):
+            bad.append({"what": "writing the table read from a delimited file with a header does not give %s" % ("the file's own lines" if lazy is None else "the fields of the type under their names"),
+                        "tags": dict(tags0, op="write", mode=mode), "vector": {k: v[k] for k in v if not k.startswith("_")}, "case": {"text": text.decode()},
+                        "expected": wanted.decode(), "observed": str(o)[:300]})
+    return {"n": n, "nt": [json.dumps(["csv", v["header"], rows])] if tags0["permuted"] or tags0["extra_column"] else [], "bad": bad}
+
+
 def run(ctx):
     quick = ctx.tier == "quick"
     first = None
+    for sepc, wc in ((44, False), (9, True)) if quick else ((44, False), (9, True), (59, False), (44, True)):
+        res = ctx.tlc("MC_Csv", tag="MC_Csv_%d_%s" % (sepc, wc), spec="Spec", workers=4, constants={"Sep": sepc, "MaxRows": 2, "Headers": "<- Hdrs", "WithComment": wc},
+                      invariants=["ByName", "OrderIrrelevant", "Emit"], coverage=True)
+        ctx.require_actions(res, "MC_Csv", ["AddRow"])
+        for v in res.vectors:
+            v["_dir"] = ctx.work
+        ctx.absorb(core.pmap(check_csv, res.vectors, chunk=50))
     res = ctx.tlc("MC_Motif", tag="MC_Motif", spec="Spec", workers=4, constants={"Orders": "<- OrdAll", "W": 2, "Exps": [0, 2] if quick else [0, 1, 3]},
                   invariants=["SameMotif", "Emit"])
     for v in res.vectors:
@@ -370,6 +439,10 @@ def replay(d):
         r = check_regex(v)
     elif d["tags"].get("spec") == "Consensus":
         r = check_consensus(v)
+    elif d["tags"].get("spec") == "Csv":
+        w = os.path.join(core.VERIF, ".work", "replay")
+        os.makedirs(w, exist_ok=True)
+        r = check_csv(dict(v, _dir=w))
     elif d["tags"].get("spec") == "Motif":
         w = os.path.join(core.VERIF, ".work", "replay")
         os.makedirs(w, exist_ok=True)
